@@ -301,4 +301,7 @@ func TestC14(t *testing.T) {
 	b := c14Conc
 	b.Checks = n(50, 600)
 	b.Run(t)
+	c := c14Src
+	c.Checks = n(2, 30)
+	c.Run(t)
 }
